@@ -38,7 +38,7 @@ def run_impl(case):
     style = rnd.choice(["abiding", "abiding", "abiding", "random"])
     lines = [f"case {ratio} {cdw} {int(style == 'abiding')}"]
     obs, fails = [], []
-    stats = {"cycles": 0, "transfers": 0, "back_to_back": 0, "partial_sel": 0, "cyc_without_stb": 0, "ratio": ratio}
+    stats = {"cycles": 0, "transfers": 0, "back_to_back": 0, "partial_sel": 0, "cyc_without_stb": 0, "released_in_ack_cycle": 0, "ratio": ratio}
     gmask = (1 << cdw) - 1
 
     async def tb(ctx):
@@ -47,6 +47,7 @@ def run_impl(case):
         rlog = {}               # cycle -> csr r_data presented
         gap = 0
         just_acked = False
+        rel = lib.rng_for(case["seed"], case["idx"], 1030)     # own stream: how the initiator behaves in the acknowledge cycle
         for t in range(case["ncycles"]):
             csr_r = lib.bits(rnd, cdw)
             if style == "random":
@@ -65,6 +66,14 @@ def run_impl(case):
                 if cur is not None:
                     cyc = stb = 1
                     we, adr, sel, datw = cur
+                    if t - t0 == ratio + 1:
+                        # the acknowledge cycle (ack is registered: it does not depend on this cycle's inputs). An initiator
+                        # written as an Amaranth test bench sees ack after the clock edge and releases the bus at once — stb
+                        # alone, or cyc and stb — in the very cycle ack is high; a registered one holds the request through it
+                        how = rel.choice(["hold", "hold", "stb", "cyc+stb"])
+                        if how != "hold":
+                            cyc, stb = (1, 0) if how == "stb" else (0, 0)
+                            stats["released_in_ack_cycle"] += 1
                 else:
                     gap -= 1
                     cyc, stb = rnd.choice([(0, 0), (1, 0), (0, 0)])
